@@ -41,6 +41,7 @@ type dbState struct {
 	queryErr  bool
 	cancel    func() // when set, the failing call cancels the context instead of returning a driver error
 	faultKind int    // which error value the failing call returns (see faultErr)
+	cancelKeep bool  // with cancel set: the context is cancelled DURING call failAt, which itself succeeds
 }
 
 var errInjected = errors.New("injected driver fault")
@@ -82,6 +83,9 @@ func (s *dbState) record(kind, text string, args []driver.NamedValue) bool {
 	ok := s.idx != s.failAt
 	if !ok && s.cancel != nil {
 		s.cancel()
+		if s.cancelKeep {
+			ok = true
+		}
 	}
 	s.idx++
 	vals := make([]any, len(args))
